@@ -347,5 +347,29 @@ impl SentHTLCId { #[verifier::external_body] pub fn from_source(s: &HTLCSource) 
 //@with
     let _ = preimage;
 //@end
+
+//@extract lightning/src/ln/channel.rs :: impl FundedChannel :: fn revoke_and_ack
+//@slice R15
+    if let OutboundHTLCState::LocalAnnounced(_) = htlc.state { $a:any } if let &mut OutboundHTLCState::AwaitingRemoteRevokeToRemove(ref mut outcome) = &mut htlc.state { $b:any }
+//@with
+    fn outbound_htlc_promoted_on_revoke_and_ack(htlc: &mut OutboundHTLCOutput, expecting_peer_commitment_signed: &mut bool, require_commitment_: bool) -> bool {
+        let mut require_commitment = require_commitment_;
+        if let OutboundHTLCState::LocalAnnounced(_) = htlc.state { $a }
+        if let OutboundHTLCState::AwaitingRemoteRevokeToRemove(outcome) = &mut htlc.state { $b }
+        require_commitment
+    }
+//@ret r
+//@ensures P C01 a-revocation-commits-the-htlcs-we-had-announced-and-moves-the-removals-the-peer-had-signed-one-step-on-keeping-their-outcome
+    old(htlc).state is LocalAnnounced ==> final(htlc).state is Committed && *final(expecting_peer_commitment_signed) && r == require_commitment_,
+    old(htlc).state is AwaitingRemoteRevokeToRemove ==> final(htlc).state == OutboundHTLCState::AwaitingRemovedRemoteRevoke(old(htlc).state->AwaitingRemoteRevokeToRemove_0) && r
+        && *final(expecting_peer_commitment_signed) == *old(expecting_peer_commitment_signed),
+    !(old(htlc).state is LocalAnnounced) && !(old(htlc).state is AwaitingRemoteRevokeToRemove) ==> final(htlc).state == old(htlc).state && r == require_commitment_
+        && *final(expecting_peer_commitment_signed) == *old(expecting_peer_commitment_signed),
+    final(htlc).amount_msat == old(htlc).amount_msat && final(htlc).htlc_id == old(htlc).htlc_id,
+//@mutant removal_finalised_one_revocation_early
+    htlc.state = OutboundHTLCState::AwaitingRemovedRemoteRevoke(reason);
+//@with
+    htlc.state = OutboundHTLCState::Committed; let _ = reason;
+//@end
 }
 fn main() {}
